@@ -37,7 +37,7 @@ ASSUMPTIONS = [
 CLASSES = ["contract/min_dt", "contract/max_dt", "contract/eft0", "contract/eft1", "contract/backward", "contract/equal", "contract/ulp", "contract/nearzero",
            "contract/dt_gt_interval", "contract/adaptive_shortened", "contract/retry_last_step",
            "status/escape", "status/encounter", "status/collision", "status/noparticles", "status/stop",
-           "status/success", "status/k0", "status/at_last_boundary", "status/at_last_boundary_eft1", "split/pieces>=2"]
+           "status/success", "status/k0", "status/at_last_boundary", "status/at_last_boundary_eft1", "split/pieces>=2", "status_now/Escape", "status_now/Encounter", "status_now/NoParticles", "status_now/stop", "status_now/success", "status_now/after_previous_call"]
 
 FIXED_FAMS = ["whfast", "saba", "eos", "janus", "mercurius", "trace", "leapfrog"]
 
@@ -240,6 +240,9 @@ def run_contract(case, ctx):
         if dirn == 0:
             ctx.cls("equal")
             nontrivial = True
+            if len(log) < 1:
+                raise Violation("integrate(t) with tmax equal to the current time did not call the heartbeat (it is "
+                                "called at the beginning of every integration); %s" % where)
             if inv.pbytes(sim) != p0 or rb.dbits(t1) != rb.dbits(t0) or rb.dbits(sim.dt) != rb.dbits(dt0) \
                     or sim.steps_done != steps0:
                 raise Violation("integrate(t) with tmax equal to the current time changed the state; %s" % where,
@@ -744,9 +747,120 @@ def run_status(case, ctx):
         ctx.cls("twin")
 
 
+# ---------------------------------------------------------------------------------------------
+# sub-check "status_now": target == current time with an exit condition that already holds
+
+now_case = st.fixed_dictionaries({
+    "system": S.hierarchical_system(nmin=2, nmax=4),
+    "cfg": S.integrator_config(),
+    "dt_frac": S.logfloats(4e-3, 0.06),
+    "usign": st.sampled_from([1.0, -1.0]),
+    "t0": st.sampled_from([0.0, 0.0, 12.5, -7.25]),
+    "eft": st.sampled_from([0, 1]),
+    "pre": st.one_of(st.just(None), st.fixed_dictionaries({"d": S.floats(0.5, 20.0), "back": st.booleans(),
+                                                           "eft": st.sampled_from([0, 1])})),
+    "escape": st.one_of(st.none(), S.floats(0.6, 0.98), S.floats(1.02, 1.5)),      # exit_max_distance / max |x_i|
+    "encounter": st.one_of(st.none(), S.floats(0.6, 0.98), S.floats(1.02, 1.5)),   # exit_min_distance / min pair distance
+    "stop": st.booleans(),
+    "empty": st.sampled_from([False, False, False, True]),
+    "offset": st.sampled_from(["equal", "equal", "equal", "ulp+", "ulp-"]),
+})
+
+
+def run_status_now(case, ctx):
+    """integrate(tmax) with tmax equal to the current time (fresh simulation, or right after a previous call ended
+    there) is still an integrate() call: the heartbeat is called once ("at the beginning of the simulation",
+    docs/simulationvariables.md) and the exit checks that follow it are made, so a condition that already holds is
+    reported, not swallowed.  The 'ulp' offsets make one tiny step and must report the same condition at boundary 0."""
+    import rebound
+    from .. import rb
+    from ..oracles import c04_invariants as inv
+    rb.quiet()
+    cfg = case["cfg"]
+    fam = cfg["family"]
+    sim = make_sim(case)
+    if case["pre"]:
+        pre = case["pre"]
+        back = pre["back"]
+        if trace_backward_guard(case, ctx, back):
+            sim.ri_trace.S_peri = "none"
+        eft = 0 if keeps_unsynchronized(cfg) else pre["eft"]
+        sim.integrate(sim.t + (-1.0 if back else 1.0) * pre["d"] * abs(sim.dt), exact_finish_time=eft)
+        ctx.cls("after_previous_call")
+    a = inv.parr(sim)
+    n = len(a)
+    emax = emin = 0.0
+    if case["escape"] is not None:
+        emax = case["escape"] * max(float((a[i, 0:3] ** 2).sum() ** 0.5) for i in range(n))
+        sim.exit_max_distance = emax
+    if case["encounter"] is not None:
+        emin = case["encounter"] * min(float(((a[i, 0:3] - a[j, 0:3]) ** 2).sum() ** 0.5) for i in range(n) for j in range(i))
+        sim.exit_min_distance = emin
+    empty = case["empty"] and not keeps_unsynchronized(cfg)
+    if empty:
+        sim.synchronize()
+        while sim.N > 0:
+            sim.remove(sim.N - 1)
+    calls = [0]
+
+    def hb(p):
+        calls[0] += 1
+        if case["stop"] and calls[0] == 1:
+            sim.stop()
+    sim.heartbeat = hb
+    t0 = sim.t
+    steps0 = sim.steps_done
+    tmax = t0
+    if case["offset"] != "equal" and t0 != 0.0 and not (fam == "trace" and case["offset"] == "ulp-"
+                                                         and ctx.finding_open("C08-trace-backward")):
+        tmax = math.nextafter(t0, math.inf if case["offset"] == "ulp+" else -math.inf)
+    expected = set()
+    if not empty:
+        pm = pred_margins(a, emax, emin, False)
+        for kind, val in pm.items():
+            if val is True:
+                expected.add(EXC_OF[kind])
+            elif val is None:
+                ctx.skip("predicate within rounding of its threshold")
+                return
+    if empty:
+        expected = {"NoParticles"}      # reb_check_exit overrides whatever the heartbeat set when N == 0
+    elif case["stop"] and not expected:
+        expected = {"stop"}
+    elif case["stop"]:
+        pass                            # the distance checks run after the heartbeat and overwrite USER
+    if not expected:
+        expected = {"success"}
+    exc = None
+    try:
+        sim.integrate(tmax, exact_finish_time=case["eft"])
+    except (rebound.Escape, rebound.Encounter, rebound.Collision, rebound.NoParticles) as e:
+        exc = type(e).__name__
+    except (rebound.GenericError, RuntimeError) as e:
+        raise Violation("integrate raised %s: %s" % (type(e).__name__, e))
+    got = exc or {5: "stop", 0: "success"}.get(sim._status, "status %d" % sim._status)
+    where = "(%s, eft=%d, target %s current time%s, escape=%r encounter=%r stop=%r empty=%r)" % (
+        fam, case["eft"], "==" if tmax == t0 else "one ulp from", ", after a previous call" if case["pre"] else "",
+        case["escape"], case["encounter"], case["stop"], empty)
+    if calls[0] < 1:
+        raise Violation("integrate() returned without calling the heartbeat once %s" % where)
+    if got not in expected:
+        raise Violation("exit condition(s) %s hold at the current time; integrate ended with %s %s"
+                        % (sorted(expected), got, where))
+    if expected != {"success"}:
+        if sim.steps_done != steps0:
+            raise Violation("an exit condition holds before the first step, yet %d step(s) were taken %s"
+                            % (sim.steps_done - steps0, where))
+        ctx.nontrivial()
+    for e_ in expected:
+        ctx.cls(e_)
+    ctx.cls("equal" if tmax == t0 else "ulp")
+
+
 def subs(tier):
     return [
         Sub("contract", run_contract, strategy=contract_case, quick=2400, thorough=100000, shards_quick=8, shards_thorough=16),
         Sub("split", run_split, strategy=split_case, quick=800, thorough=30000, shards_quick=4, shards_thorough=16),
+        Sub("status_now", run_status_now, strategy=now_case, quick=800, thorough=30000, shards_quick=4, shards_thorough=16),
         Sub("status", run_status, strategy=status_case, quick=1600, thorough=60000, shards_quick=8, shards_thorough=16),
     ]
